@@ -2,4 +2,4 @@
 From Coq Require Import Extraction ExtrOcamlBasic.
 From Pi2 Require Import Det.Finalize Det.ConverterModel.
 Extraction Language OCaml.
-Extraction "det_model.ml" finalize ord_id ord_rev ord_rot memo_decision sort_str metavars_in_order unlink_all.
+Extraction "det_model.ml" finalize ord_id ord_rev ord_rot memo_decision sort_str metavars_in_order unlink_all unambiguize_numbers.
